@@ -25,6 +25,7 @@ import itertools
 import json
 import math
 import os
+import re
 import time
 import warnings
 from concurrent.futures import ThreadPoolExecutor
@@ -34,12 +35,13 @@ import numpy as np
 LEVEL = "proof"
 PI = math.pi
 KINDS = ("component", "norm", "integral")
+LEG_LMAX = 11   # band limit of the regenerated Legendre table / of the kernel certificates Cert/Leg
 
 # oracle families: a driver-vs-real disagreement in a stream is "explained" when an oracle of its family fails
 FAMILY = {
     "complete": "complete", "init": "complete",
     "qw": "s2", "grid": "s2", "gridpt": "s2", "sha": "s2", "expand": "s2", "nconst": "s2", "shb": "s2",
-    "rfft": "s2", "irfft": "s2", "dft": "fft", "forward": "s2", "legendre1": "s2",
+    "rfft": "s2", "irfft": "s2", "dft": "fft", "forward": "s2", "legendre1": "s2", "legendre": "s2",
     "so3": "so3",
 }
 
@@ -444,14 +446,42 @@ def run(ctx):
         ctx.log("C11_SKIP_BUILD=1: skipping lake build / audit (development only)")
         ctx.obligation("build:Props.C11", False, "skipped by C11_SKIP_BUILD=1 (development only)")
     else:
+        # translator T5: the Legendre factor is regenerated from the FX graph of the running o3.Legendre
+        try:
+            import leg2poly
+            rows, exact = leg2poly.translate(LEG_LMAX)
+            ctx.write_generated("Legendre.lean", leg2poly.render(LEG_LMAX, rows))
+            ctx.obligation("translator:T5 accepts o3.Legendre's FX graph", True)
+            ctx.obligation("translator:T5 lifts every coefficient to (n/d)*sqrt(r)/sqrt(pi)", exact,
+                           "a float coefficient of o3.Legendre(range(12)) is not of the documented form; it was emitted as an exact dyadic")
+            ctx.notes["legendre_table"] = dict(lmax=LEG_LMAX, rows=len(rows), monomials=sum(len(r) for r in rows))
+        except Exception as e:  # noqa: BLE001
+            ctx.obligation("translator:T5 accepts o3.Legendre's FX graph", False, repr(e)[-1500:])
         ok, out = ctx.lake_build(["E3nnVerif.Props.C11"])
         ctx.obligation("build:Props.C11", ok, out[-3000:])
+        okl, outl = ctx.lake_build(["E3nnVerif.Props.C11Leg"])
+        if okl:
+            for l in range(LEG_LMAX + 1):
+                ctx.obligation(f"cert:Leg.row{l} (decide +kernel: orthonormality of the regenerated Legendre rows of degree {l})", True)
+            ctx.obligation("build:Props.C11Leg", True)
+        else:
+            bad = sorted(set(re.findall(r"E3nnVerif\.[A-Za-z0-9_.]+", " ".join(x for x in outl.splitlines() if "✖" in x or "error" in x.lower()))))
+            for l in range(LEG_LMAX + 1):
+                ctx.obligation(f"cert:Leg.row{l} (decide +kernel: orthonormality of the regenerated Legendre rows of degree {l})",
+                               f"E3nnVerif.Cert.Leg.Row{l}" not in bad and bool(bad), "kernel refuted / did not build: " + outl[-800:])
+            ctx.obligation("build:Props.C11Leg", False, f"failing: {bad[:12]} :: " + outl[-1500:])
         files = [common_path("lean/E3nnVerif/Model/S2Grid.lean"), common_path("lean/E3nnVerif/Model/Scalar.lean"),
                  common_path("lean/E3nnVerif/Theory/ScalarReal.lean")]
         files += sorted(glob.glob(str(common_path("lean/E3nnVerif/Theory/S2Grid*.lean"))))
         files += [common_path("lean/E3nnVerif/Props/C11.lean"), common_path("lean/drivers/C11.lean")]
         files = [f for f in files if os.path.exists(str(f))]
-        if ok:
+        files += [common_path("lean/E3nnVerif/Model/Legendre.lean"), common_path("lean/E3nnVerif/Sound/LegendreChecks.lean"),
+                  common_path("lean/E3nnVerif/Props/C11Leg.lean"), common_path("lean/E3nnVerif/Cert/Leg/All.lean")]
+        files += sorted(glob.glob(str(common_path("lean/E3nnVerif/Cert/Leg/Row*.lean"))))
+        files = [f for f in files if os.path.exists(str(f))]
+        if ok and okl:
+            ctx.audit(["E3nnVerif.Props.C11", "E3nnVerif.Props.C11Leg", "E3nnVerif.Cert.Leg.All"], files=files)
+        elif ok:
             ctx.audit(["E3nnVerif.Props.C11"], files=files)
         else:
             ctx.obligation("audit:axioms:E3nnVerif.Props.C11", False, "not audited: build failed")
@@ -597,6 +627,40 @@ def _run(ctx, torch):
             if len(st.dis) != before:
                 leg_state["ok"] = False
         A.add(f"legendre1 {N}", leg_cb)
+    # ---- the regenerated Legendre table (Generated/Legendre.lean, translator T5) next to the real factor, and the statements the
+    #      kernel certificates + quadrature_exact_pow prove (KRExact for every lmax <= 11 and every b > lmax), on the REAL code
+    leg_state2 = {"n": 0, "ok": True}
+    legNs = [2 * (LEG_LMAX + 1), 2 * (LEG_LMAX + 1) + 2 * (1 + ctx.seed % 5)] + ([26, 40, 64] if thorough else [])
+    for N in dict.fromkeys(legNs):
+        Pfull = S.spherical_harmonics_s2_grid(LEG_LMAX, N, 3)[2]   # [N, (LEG_LMAX+1)^2]
+        ctx.case(("legendre-table", N, LEG_LMAX))
+
+        def leg2_cb(o, N=N, P=tnp(Pfull)):
+            before = len(st.dis)
+            leg_state2["n"] += 1
+            cmp_floats(st, "legendre", f"legendre {N} {LEG_LMAX}", o, "ok", P, 1e-11, scaled=True)
+            if len(st.dis) != before:
+                leg_state2["ok"] = False
+        A.add(f"legendre {N} {LEG_LMAX}", leg2_cb, 4.0)
+        # KRExact on the real data: real weights, real Legendre factor, all l, l' <= 11, all orders
+        w = S._quadrature_weights(N // 2) * N ** 2
+        worst, where = 0.0, None
+        for l in range(LEG_LMAX + 1):
+            for lp in range(l, LEG_LMAX + 1):
+                for mm in range(-l, l + 1):
+                    v = float((w * Pfull[:, l * l + l + mm] * Pfull[:, lp * lp + lp + mm]).sum())
+                    e = abs(v - (1.0 / (4 * PI) if l == lp else 0.0))
+                    if e > worst:
+                        worst, where = e, (l, lp, mm)
+        st.oracle("KRExact(lmax<=11, real Legendre factor, real weights)", worst, 2e-13, "Legendre/orthonormality-on-the-grid", "s2",
+                  dict(call="sum_b _quadrature_weights(N//2)[b]*N**2 * P[b,l,m]*P[b,l',m] vs delta/(4 pi), P = spherical_harmonics_s2_grid(11,N,3)[2]",
+                       N=N, worst_at=where))
+    # one round trip of the real modules at a band limit beyond the forward family (which stops at lmax 3 / 6)
+    for lm in ([7 + ctx.seed % 5] if not thorough else [7, 9, 11]):
+        cfg = dict(lmax=lm, res=(2 * (lm + 1) + 2 * (ctx.seed % 2), 2 * lm + 1 + (ctx.seed % 3)), kind=KINDS[(lm + ctx.seed) % 3])
+        ctx.case(("roundtrip-high-lmax", lm, cfg["res"], cfg["kind"]))
+        st.oracle("FromS2Grid∘ToS2Grid = id (lmax 7..11)", check_roundtrip(torch, o3, cfg), 1e-12, "roundtrip/high-lmax", "s2",
+                  dict(call="o3.FromS2Grid(res, lmax, kind)(o3.ToS2Grid(lmax, res, kind)(eye))", config=cfg))
     # grids
     gmax = 14 if thorough else 9
     gridpairs = [(N, M) for N in range(1, gmax) for M in range(1, gmax)]
@@ -721,6 +785,8 @@ def _run(ctx, torch):
                 A.add(f"idft {n} " + bits(np.concatenate([re, im])), lambda o, n=n, v=tnp(y): dft_cb(o, f"idft {n} <X>", v))
 
     A.run(1)
+    ctx.obligation("corr:legendre-table-vs-o3.Legendre", leg_state2["ok"] and leg_state2["n"] > 0,
+                   "the Float instance of the regenerated Legendre table differs from spherical_harmonics_s2_grid(11,N,3)[2]")
     ctx.obligation("corr:legendre1-explicit-formula", leg_state["ok"] and leg_state["n"] > 0,
                    "the explicit Legendre factor for lmax <= 1 of the model differs from spherical_harmonics_s2_grid(1,N,3)[2]")
     ctx.obligation("trusted:torch.fft=DFT-definition", dft_state["ok"] and dft_state["n"] > 0,
